@@ -199,6 +199,7 @@ def main(argv=None):
                 r["detail"] = "reached / refuted in another input case"
 
     errors, undecided, violations, known_seen = [], [], [], []
+    bounded = {"obligations": 0, "bounds": []}
     n_obl = n_dis = 0
     backends = {}
     solver_s = 0.0
@@ -218,7 +219,10 @@ def main(argv=None):
         functions.append({"function": o["qual"], "source_hash": o["info"].get("source_hash"),
                           "lines": o["info"].get("lines"), "paths": o["info"].get("paths"),
                           "mode": c.mode, "obligations": len(o["results"]), "wall_s": o["wall_s"],
-                          "assumed": bool(c.assumed)})
+                          "assumed": bool(c.assumed), "bounded": c.bound})
+        if c.bound:
+            bounded["obligations"] += len(o["results"])
+            bounded["bounds"].append(f"{c.short}: {c.bound}")
         for x in o["info"].get("assumptions", []):
             trusted.add(x)
         if c.float_as_real:
@@ -337,6 +341,10 @@ def main(argv=None):
             "functions_under_contract": functions,
             "samples": samples,
             "undecided": undecided, "checker_errors": errors,
+            "bounded_stand_in": {"obligations": bounded["obligations"], "bounds": sorted(set(bounded["bounds"])),
+                                 "note": "obligations of contracts whose INPUT SHAPES are enumerated up to the stated bound: discharged "
+                                         "by the same solver for every value of every enumerated shape, but not a proof for larger "
+                                         "shapes; the remaining obligations hold for all inputs"},
             "known_findings_seen": known_seen,
             "rule": "one obligation per (contract clause | raise site | frame location | callee precondition | "
                     "shift-overflow side condition) per feasible path of the real function body, plus vacuity, "
